@@ -138,20 +138,22 @@ static void cs_program (sb_t *out, int kind, int ns, int np) {
     sb_puts (out, "1);\n");
     return;
   }
+  /* the body is one comma expression: statement lists are right-recursive in the grammar and exhaust the parser stack near 600 */
   if (kind == 3) {              /* two functions: the second one starts in the upper half */
     sb_puts (out, "int f() {\n");
-    for (int i = 0; i < ns / 2; i++) sb_puts (out, (i & 15) == 15 ? "g++;\n" : "g++;");
-    sb_puts (out, "return g; }\nint h() {\n");
-    for (int i = ns / 2; i < ns; i++) sb_puts (out, (i & 15) == 15 ? "g++;\n" : "g++;");
-    for (int i = 0; i < np; i++) sb_puts (out, "g=g;");
-    sb_puts (out, "return f(); }\n");
+    for (int i = 0; i < ns / 2; i++) sb_puts (out, (i & 15) == 15 ? "g++,\n" : "g++,");
+    sb_puts (out, "g++;\nreturn g; }\nint h() {\n");
+    for (int i = ns / 2; i < ns; i++) sb_puts (out, (i & 15) == 15 ? "g++,\n" : "g++,");
+    for (int i = 0; i < np; i++) sb_puts (out, "g=g,");
+    sb_puts (out, "g++;\nreturn f(); }\n");
     return;
   }
   sb_puts (out, "int f() {\n");
   if (kind == 1) sb_puts (out, "if (g) {\n");
   if (kind == 2) sb_puts (out, "while (g) {\n");
-  for (int i = 0; i < ns; i++) sb_puts (out, (i & 15) == 15 ? "g++;\n" : "g++;");
-  for (int i = 0; i < np; i++) sb_puts (out, "g=g;");
+  for (int i = 0; i < ns; i++) sb_puts (out, (i & 15) == 15 ? "g++,\n" : "g++,");
+  for (int i = 0; i < np; i++) sb_puts (out, "g=g,");
+  sb_puts (out, "g++;\n");
   if (kind == 1 || kind == 2) sb_puts (out, "}\n");
   sb_puts (out, "return g; }\n");
 }
